@@ -17,6 +17,7 @@ import (
 	"sort"
 	"strings"
 	"sync"
+	"sync/atomic"
 	"time"
 
 	"github.com/opencontainers/go-digest"
@@ -594,6 +595,51 @@ func runC14(seed int64, tier string, sc *Script) map[string]any {
 		sc.Op(verdict, "rf fault kind=fresh-repository-concurrent-deletes digesthdr=%v", ri%2 == 0)
 		evals++
 		reg.Close()
+	}
+	// (a7) two goroutines settle the capability of one fresh Repository at the same moment,
+	// one way each: exactly one of them is refused, and the other's value stands
+	{
+		sc.Case("capability-race")
+		sc.NonTrivial()
+		trials := 3000
+		if tier == "thorough" {
+			trials = 60000
+		}
+		verdict := "stable"
+		for t := 0; t < trials && verdict == "stable"; t++ {
+			repo, _ := remote.NewRepository("registry.invalid/test/repo")
+			var wg sync.WaitGroup
+			var errT, errF error
+			var ready int32
+			wg.Add(2)
+			go func() {
+				defer wg.Done()
+				atomic.AddInt32(&ready, 1)
+				for atomic.LoadInt32(&ready) < 2 {
+				}
+				errT = repo.SetReferrersCapability(true)
+			}()
+			go func() {
+				defer wg.Done()
+				atomic.AddInt32(&ready, 1)
+				for atomic.LoadInt32(&ready) < 2 {
+				}
+				errF = repo.SetReferrersCapability(false)
+			}()
+			wg.Wait()
+			switch {
+			case errT == nil && errF == nil:
+				verdict = fmt.Sprintf("trial-%d:both-settled-it", t)
+			case errT != nil && errF != nil:
+				verdict = fmt.Sprintf("trial-%d:both-refused", t)
+			case errT == nil && repo.SetReferrersCapability(true) != nil:
+				verdict = fmt.Sprintf("trial-%d:flipped-after-true-was-accepted", t)
+			case errF == nil && repo.SetReferrersCapability(false) != nil:
+				verdict = fmt.Sprintf("trial-%d:flipped-after-false-was-accepted", t)
+			}
+		}
+		sc.Op(verdict, "rf capability race trials=%d", trials)
+		evals++
 	}
 	// (b) end to end under concurrency
 	rounds := 12
